@@ -17,7 +17,7 @@ bool prop(Tape &t, Report &R) {
     int ow = (int)(t.next() % 4);
     static const double ows[] = {0.2, 0.9, 0.0, 0.5};
     params.legalization.orderingWidth = ows[ow];
-    if (s.nbMovable() == 0) return true;
+    if (s.nbMovable() == 0 || !specInDomain(s)) return true;  // literal specs outside the quantified domain are not judged
     return judge(s, params, R, false);
   }
   HistoryScope hist(t, R);
@@ -40,10 +40,9 @@ bool prop(Tape &t, Report &R) {
     return true;
   }
   // decided at the very end of the tape so that older tapes keep their meaning (nothing is read
-  // while a case is judged): a large companion, an object history, a movable cell lower than a row
+  // while a case is judged): a large companion, an object history
   uint32_t tail = t.next();
   uint32_t hw = t.next();
-  if (addShortMovable(s, t.next())) R.classify("cells:movable-cell-lower-than-a-row");
   if (!judge(s, params, R, true)) return false;
   // occasionally also a large companion instance (size-dependent code paths)
   if (tail % 24 == 1) {
